@@ -136,14 +136,20 @@ class ArmEval:
             l = src["l"]
             nm = fn.local_name(l)
         if nm:
-            # a binding `dest = &((stmt as Add).dest)`: prefer the field name it was bound from
-            sd = fn.single_def(l)
-            if sd and sd[0] == "stmt" and sd[3]["r"]["k"] in ("ref", "use"):
+            # a binding `dest = &((stmt as Add).dest)`: prefer the field name it was bound from; a helper's parameter that was
+            # handed such a binding (`reg = copy (*dest)`) is followed back to it
+            l2 = l
+            for _ in range(6):
+                sd = fn.single_def(l2)
+                if not (sd and sd[0] == "stmt" and sd[3]["r"]["k"] in ("ref", "use")):
+                    break
                 src = sd[3]["r"].get("p") or (sd[3]["r"].get("a", {}).get("p"))
-                if src:
-                    f2 = [e.get("n") for e in src.get("pr", []) if isinstance(e, dict) and "f" in e]
-                    if f2:
-                        return f2[-1]
+                if not src:
+                    break
+                f2 = [e.get("n") for e in src.get("pr", []) if isinstance(e, dict) and "f" in e]
+                if f2:
+                    return f2[-1]
+                l2 = src["l"]
             return nm
         return "_%d" % l
 
@@ -225,6 +231,7 @@ class ArmEval:
         b = entry
         seen = set()
         result = None
+        oks = {}
         while b is not None and b not in seen:
             seen.add(b)
             for s in fn.stmts(b):
@@ -233,6 +240,16 @@ class ArmEval:
                 p = s["p"]
                 if p["l"] == 0 and place_is_local(p) and s["r"]["k"] == "agg" and s["r"].get("variant") == "Ok":
                     result = self.operand(s["r"]["ops"][0])
+                    continue
+                if place_is_local(p) and s["r"]["k"] == "agg" and s["r"].get("variant") == "Ok" and str(s["r"].get("adt", "")).endswith("result::Result"):
+                    # an Ok(word) built in a temporary (the return value of an inlined helper) and handed on below
+                    oks[p["l"]] = self.operand(s["r"]["ops"][0])
+                    continue
+                if place_is_local(p) and s["r"]["k"] == "use" and op_local(s["r"]["a"]) in oks:
+                    if p["l"] == 0:
+                        result = oks[op_local(s["r"]["a"])]
+                    else:
+                        oks[p["l"]] = oks[op_local(s["r"]["a"])]
                     continue
                 if place_is_local(p):
                     self.env[p["l"]] = self.rvalue(s["r"])
